@@ -127,9 +127,11 @@ def judge(info: Dict[str, Any], ops: List[Dict[str, Any]]) -> Tuple[Verdicts, Di
              "keyi_rises": 0, "ticks": 0, "max_fifo": 0, "lossy": 0, "redundant_press": 0, "chatter": 0,
              "redundant_release": 0, "cpu_strobe_stores": 0, "cpu_wide_strobe_stores": 0, "parked_release": 0,
              "keyi_clears": 0, "keyi_rerises": 0, "wake_events": 0, "injected": 0, "inject_fresh_press": 0,
-             "full_queue": 0, "rejected_ops": 0, "imr_values": 0}
+             "full_queue": 0, "rejected_ops": 0, "imr_values": 0, "big_ticks": 0, "multi_event_ticks": 0,
+             "observer_calls": 0, "observer_raises": 0, "observer_raises_in_tick": 0}
     seen_keyi = False
     imr_seen = set()
+    over_len = cap              # longest over-capacity queue length already reported
 
     def key(code: int) -> KeyHist:
         k = keys.get(code)
@@ -242,11 +244,27 @@ def judge(info: Dict[str, Any], ops: List[Dict[str, Any]]) -> Tuple[Verdicts, Di
         elif verb == "bad":
             facts["rejected_ops"] += 1
 
+        # host observers (coverage only): invocations / generated faults during this operation
+        facts["observer_calls"] += int(op.get("observer_calls", 0))
+        facts["observer_raises"] += int(op.get("observer_raises", 0))
+        if op.get("observer_raises") and any(t.get("events") for t in op.get("ticks", [])):
+            facts["observer_raises_in_tick"] += 1
+        big_tick = False            # a tick of this op enqueued more events than the queue holds
+
         # ---------------- scan ticks performed by this op ----------------
         for tick in op.get("ticks", []):
             certain = bool(tick["certain"])
             events = tick.get("events")
             facts["ticks"] += 1
+            n_ev = len(events) if events is not None else int(tick.get("n_events", 0))
+            if n_ev >= 5:
+                facts["multi_event_ticks"] += 1
+            if n_ev > cap:
+                facts["big_ticks"] += 1
+                big_tick = True
+            # a generated observer fault came out of this tick (the host caught it and carries on): whatever the
+            # tick's verdicts are, they carry this context
+            tctx = " [a host observer raised inside this scan tick]" if tick.get("observer_fault") else ""
             act = strobed()
             if not act and not any(k.held for k in keys.values()) and \
                     any(k.g == "pressed" and k.rel_lo is not None for k in keys.values()):
@@ -396,14 +414,14 @@ def judge(info: Dict[str, Any], ops: List[Dict[str, Any]]) -> Tuple[Verdicts, Di
                         continue
                     if k.g == "idle" and k.held and k.hold_lo >= P:
                         V.add("event-timing", verb, "no press event although the key was held for the debounce interval"
-                              + k.ctx(), idx, f"key {k.code:#04x}: held+strobed {k.hold_lo} certain ticks, "
+                              + k.ctx() + tctx, idx, f"key {k.code:#04x}: held+strobed {k.hold_lo} certain ticks, "
                                               f"press_threshold={P}")
                         k.g = "unknown"
                         k.last = None
                         k.clean = False
                     elif k.g == "pressed" and (not k.held) and k.rel_lo is not None and k.rel_lo >= R:
                         V.add("event-timing", verb, "no release event within the release interval after the release "
-                                                    "of a debounced key" + (k.ctx() if k.rerelease else ""), idx,
+                                                    "of a debounced key" + (k.ctx() if k.rerelease else "") + tctx, idx,
                               f"key {k.code:#04x}: released {k.rel_lo} certain ticks ago, release_threshold={R}")
                         k.g = "unknown"
                         k.last = None
@@ -414,17 +432,29 @@ def judge(info: Dict[str, Any], ops: List[Dict[str, Any]]) -> Tuple[Verdicts, Di
                         if k.since >= want:
                             which = "first repeat after the press event" if k.last == "press" else \
                                 "repeat after a repeat"
-                            V.add("repeat-cadence", verb, f"{which} missing" + k.ctx(), idx,
+                            V.add("repeat-cadence", verb, f"{which} missing" + k.ctx() + tctx, idx,
                                   f"key {k.code:#04x}: {k.since} clean tick(s) since the previous event, configured "
                                   f"{'delay' if k.last == 'press' else 'interval'}={want}")
                             k.clean = False
+
+        if any(t.get("observer_fault") for t in op.get("ticks", [])):
+            # an exception came out of a scan tick: how far the tick got is unknown, so after its own verdicts the
+            # grammar position of every key is resynchronised (one root cause, not a trail of follow-up verdicts)
+            for k in keys.values():
+                k.g = "unknown"
+                k.last = None
+                k.clean = False
 
         # ---------------- queue ----------------
         fifo = list(op["fifo"])
         facts["max_fifo"] = max(facts["max_fifo"], len(fifo))
         if len(fifo) >= cap:
             facts["full_queue"] += 1
-        if len(fifo) > cap:
+        if len(fifo) <= cap:
+            over_len = cap
+        elif len(fifo) > over_len:
+            # reported at the operation that made the queue (more) over-long, not again at every later operation
+            over_len = len(fifo)
             V.add("fifo", verb, "queue longer than its capacity", idx, f"len={len(fifo)} capacity={cap}")
         av = op.get("adapter_violation")
         if av:
@@ -440,7 +470,11 @@ def judge(info: Dict[str, Any], ops: List[Dict[str, Any]]) -> Tuple[Verdicts, Di
                     V.add("fifo", verb, "explicit consumption leaves entries behind", idx, f"after={fifo}")
             # a consuming read may leave anything that is within capacity
         elif any(t.get("events") is None for t in op.get("ticks", [])):
-            pass
+            # the tick's events cannot be read off the queue; but when the tick reported more new events than the
+            # queue holds, only the oldest may have gone: the queue is full afterwards
+            if big_tick and tick_events and len(fifo) < cap - 1:
+                V.add("fifo", verb, "entries dropped although the queue was not full", idx,
+                      f"a tick enqueued more than {cap} events, after={fifo} capacity={cap}")
         else:
             total = fifo_before + added
             if added:
